@@ -59,6 +59,7 @@ fn mutators(rng: &mut Rng, text: &[u8], target: usize) -> Vec<String> {
         format!("extend_chars {target} {} {}", rng.below(8), gn::items_chars(rng, false)),
         format!("extend_strs {target} {}", gn::items_strs(rng, false, false)),
         format!("add_assign {target} {}", h(&gn::short_text(rng))),
+        format!("add {target} {}", h(&gn::short_text(rng))),
         format!("write {target} {}", gn::items_strs(rng, false, false)),
     ]
 }
@@ -404,7 +405,7 @@ fn clones(rng: &mut Rng, n: usize, sink: &mut Sink) {
 
 // ------------------------------------------------------------------------------------------ C09 / C20
 fn inline(rng: &mut Rng, n: usize, sink: &mut Sink, niche: bool) {
-    let routes = ["from", "try_from", "from_string", "from_box", "from_cow", "from_ref_string"];
+    let routes = ["from", "try_from", "from_string", "from_box", "from_cow", "from_ref_string", "from_unchecked"];
     // all lengths 0..=17 x final bytes x construction routes
     let mut texts: Vec<Vec<u8>> = full_inline_texts();
     for l in 0..=17 {
@@ -937,6 +938,29 @@ fn chars(sink: &mut Sink) {
             }
         }
     }
+    // the same characters reaching the sink through `Formatter::write_char`, through a reference and through a box
+    // (none of these is the `char` fast path of `to_lean_string`)
+    struct ViaWriteChar(char);
+    impl std::fmt::Display for ViaWriteChar {
+        fn fmt(&self, f: &mut std::fmt::Formatter<'_>) -> std::fmt::Result {
+            std::fmt::Write::write_char(f, self.0)
+        }
+    }
+    for u in (0..=0x2FFFu32).chain([0xD7FF, 0xE000, 0xFEFF, 0xFFFD, 0xFFFF, 0x10000, 0x1F4BF, 0x10FFFF]) {
+        if let Some(c) = char::from_u32(u) {
+            n += 3;
+            let want = c.to_string();
+            let boxed: Box<char> = Box::new(c);
+            for (how, got) in [("write_char", ViaWriteChar(c).to_lean_string()), ("&char", (&c).to_lean_string()), ("Box<char>", boxed.to_lean_string())] {
+                if got.as_str() != want {
+                    sink.fail(&["C15"], format!("char U+{u:04X} written through {how}: to_lean_string gives {}, to_string gives {}", hex(got.as_bytes()), hex(want.as_bytes())));
+                }
+            }
+        }
+        if sink.ex.failures.len() > 5 {
+            break;
+        }
+    }
     for b in [true, false] {
         n += 1;
         if b.to_lean_string().as_str() != b.to_string() {
@@ -1041,7 +1065,10 @@ fn decode(rng: &mut Rng, n: usize, sink: &mut Sink, scripted: bool) {
             }
             sink.line(&format!("from_utf8 {} {}", d % 6, hex(&bytes)));
             sink.line(&format!("from_utf8_lossy {} {}", (d + 1) % 6, hex(&bytes)));
-            d += 2;
+            if std::str::from_utf8(&bytes).is_ok() {
+                sink.line(&format!("from_unchecked {} {}", (d + 2) % 6, hex(&bytes)));
+            }
+            d += 3;
         } else {
             let a = LeanString::from_utf8(&bytes).ok().map(|s| s.as_bytes().to_vec());
             let b = String::from_utf8(bytes.clone()).ok().map(|s| s.into_bytes());
@@ -1070,6 +1097,35 @@ fn decode(rng: &mut Rng, n: usize, sink: &mut Sink, scripted: bool) {
         }
         if idx.len() > maxlen {
             break;
+        }
+    }
+    // inputs whose length sits at the inline limit (and at 8 / 32 bytes), ending in every kind of character and in every
+    // kind of broken tail: the exact-fit case stores a text byte where the length tag normally lives
+    if scripted {
+        let tails: [&[u8]; 14] = [b"z", "\u{7f}".as_bytes(), "\u{80}".as_bytes(), "é".as_bytes(), "\u{7ff}".as_bytes(), "€".as_bytes(), "\u{ffff}".as_bytes(),
+            "𝄞".as_bytes(), "\u{10ffff}".as_bytes(), &[0xC3], &[0xE2, 0x82], &[0xF0, 0x9D, 0x84], &[0x80], &[0xFF]];
+        for total in [7usize, 8, 9, 15, 16, 17, 18, 31, 32, 33] {
+            for tail in tails {
+                if tail.len() > total {
+                    continue;
+                }
+                for multibyte_prefix in [false, true] {
+                    let mut bytes: Vec<u8> = if multibyte_prefix {
+                        "é€𝄞é€𝄞é€𝄞é€𝄞".bytes().take(total - tail.len()).collect()
+                    } else {
+                        (0..total - tail.len()).map(|i| b'a' + (i % 26) as u8).collect()
+                    };
+                    bytes.extend_from_slice(tail);
+                    cnt += 1;
+                    sink.line("reset");
+                    sink.line(&format!("from_utf8 0 {}", hex(&bytes)));
+                    sink.line(&format!("from_utf8_lossy 1 {}", hex(&bytes)));
+                    if std::str::from_utf8(&bytes).is_ok() {
+                        sink.line(&format!("from_unchecked 2 {}", hex(&bytes)));
+                        sink.line("push 2 7a");
+                    }
+                }
+            }
         }
     }
     // u16 strings
